@@ -1429,3 +1429,26 @@ CASES += [
          new="""        m.assignment_iter()
             .fold(bdd, |acc, lit| self.condition(acc, lit.label(), lit.polarity()))"""),
 ]
+
+# ------------------------------------------------------------------ MF (min-fill order is a permutation)
+CASES += [
+    dict(name="mf-index-as-label", file=CNF, rule="MF", props=["C14"], expect="MF1",
+         old="""            ord.push(ig[idx]);""", new="""            ord.push(VarLabel::new_usize(idx.index()));"""),
+    dict(name="mf-stops-early", file=CNF, rule="MF", props=["C14"], expect="MF1",
+         old="""        while ig.node_count() > 0 {""", new="""        while ig.node_count() > 1 {"""),
+    dict(name="mf-conditional-removal", file=CNF, rule="MF", props=["C14"], expect="MF2",
+         old="""    g.remove_node(v);
+}""", new="""    if !neighbor_vec.is_empty() {
+        g.remove_node(v);
+    }
+}"""),
+    dict(name="mf-graph-misses-var0", file=CNF, rule="MF", props=["C14"], expect="MF3",
+         old="""        for v in 0..self.num_vars {
+            g.add_node(VarLabel::new(v as u64));""",
+         new="""        for v in 1..self.num_vars {
+            g.add_node(VarLabel::new(v as u64));"""),
+    dict(name="mf-loop-break-ok", file=CNF, rule="MF", props=["C14"], expect=None,
+         old="""        while ig.node_count() > 0 {""", new="""        while ig.node_count() != 0 {"""),
+    dict(name="mf-node-weight-ok", file=CNF, rule="MF", props=["C14"], expect=None,
+         old="""            ord.push(ig[idx]);""", new="""            ord.push(*ig.node_weight(idx).unwrap());"""),
+]
